@@ -64,7 +64,7 @@ static void t_fill_ba(vrng_t* r, tchunk_t* k, int64_t n, int law) {
 }
 
 /* ---- generator ----------------------------------------------------------------------------- */
-typedef struct { int max_cols; int64_t max_rows; int allow_big; int force_type; int force_rep; int force_codec; int64_t force_page; int force_nrg; } tgen_t;
+typedef struct { int max_cols; int64_t max_rows; int allow_big; int force_type; int force_rep; int force_codec; int64_t force_page; int force_nrg; int force_cols; } tgen_t;
 static const int T_TYPES[] = {CARQUET_PHYSICAL_BOOLEAN, CARQUET_PHYSICAL_INT32, CARQUET_PHYSICAL_INT64, CARQUET_PHYSICAL_FLOAT, CARQUET_PHYSICAL_DOUBLE, CARQUET_PHYSICAL_BYTE_ARRAY, CARQUET_PHYSICAL_FIXED_LEN_BYTE_ARRAY};
 static const int T_CODECS[] = {CARQUET_COMPRESSION_UNCOMPRESSED, CARQUET_COMPRESSION_SNAPPY, CARQUET_COMPRESSION_GZIP, CARQUET_COMPRESSION_LZ4, CARQUET_COMPRESSION_ZSTD};
 
@@ -90,7 +90,7 @@ static void t_gen_batches(vrng_t* r, tchunk_t* k, int64_t rows, int mode) {
 }
 static table_t* tbl_generate(vrng_t* r, const tgen_t* gp) {
     table_t* t = (table_t*)calloc(1, sizeof *t);
-    t->ncols = 1 + (int)vrng_below(r, (uint64_t)gp->max_cols);
+    t->ncols = gp->force_cols > 0 ? gp->force_cols : 1 + (int)vrng_below(r, (uint64_t)gp->max_cols);
     t->cols = (tcol_t*)calloc((size_t)t->ncols, sizeof(tcol_t));
     for (int c = 0; c < t->ncols; c++) { tcol_t* col = &t->cols[c];
         col->type = gp->force_type >= 0 ? gp->force_type : T_TYPES[vrng_below(r, 7)];
@@ -145,7 +145,7 @@ static void tbl_write_rowgroup(vrng_t* r, carquet_writer_t* w, const table_t* t,
         if (col->type == CARQUET_PHYSICAL_BYTE_ARRAY) { carquet_byte_array_t* a = (carquet_byte_array_t*)v_exact((size_t)nv * sizeof *a); tmp_ptrs = (uint8_t**)v_exact((size_t)nv * sizeof(uint8_t*) + 8);
             for (int64_t i = 0; i < nv; i++) { uint32_t L = k->ba_len[valpos[c] + i]; tmp_ptrs[i] = (uint8_t*)v_exact_copy(k->ba_ptr[valpos[c] + i], L); a[i].data = tmp_ptrs[i]; a[i].length = (int32_t)L; } vals = a; }
         else vals = v_exact_copy(k->fixed + (size_t)valpos[c] * t_elem_size(col), (size_t)nv * t_elem_size(col));
-        int16_t* defs = NULL; if (col->max_def && !k->null_def_levels) defs = (int16_t*)v_exact_copy(k->def + rowpos[c], (size_t)b * 2);
+        int16_t* defs = NULL; if (col->max_def && !k->null_def_levels) { if (nv == b && b > 0 && vrng_chance(r, 1, 3)) v_count("batches_all_present_written_without_levels"); /* a batch without nulls may omit its levels even when its neighbours carry some */ else defs = (int16_t*)v_exact_copy(k->def + rowpos[c], (size_t)b * 2); }
         carquet_status_t st = carquet_writer_write_batch(w, c, vals, b, defs, NULL); res->calls++;
         if (st != CARQUET_OK) { res->all_ok = 0; res->first_bad_status = st; res->first_bad_call = "write_batch"; }
         if (tmp_ptrs) { for (int64_t i = 0; i < nv; i++) free(tmp_ptrs[i]); free(tmp_ptrs); } free(vals); free(defs);
